@@ -409,6 +409,108 @@ Section C11_shallow_water.
   Proof. intros; eapply sw_explicit_into_Supp; eassumption. Qed.
 End C11_shallow_water.
 
+
+(** ** the CONCRETE whole-state primitive-equation model (Model/PrimEqFull.v: explicit_terms_full, implicit_terms_full,
+    implicit_inverse_full = PrimitiveEquations.explicit_terms / implicit_terms / implicit_inverse, dry class, reference
+    layout, any number of levels and tracers, with orography; proofs in Thm/InvariantsFull.v).  The table obligations
+    H_pre_mask / H_mean_tendency_zero of the abstract theorems above are THEOREMS here. *)
+From Dino Require Import Model.Implicit Model.PrimEq Model.PrimEqFull Thm.InvariantsFull.
+
+Section C11_primitive_equations.
+  Context {F : Type} {o : Ops F} {Fc : FieldC o}.
+  Variables (g : @HGrid F) (c : @PEcfg F) (grav : F) (orog : nat -> nat -> F).
+  Let E := explicit_terms_full g c grav orog.
+  Let G := implicit_terms_full g c.
+
+  (** the clipped top total wavenumber (and everything beyond): every field, level, tracer, state, ALL tables *)
+  Theorem C11_pe_explicit_top_zero (s : @State F) a l :
+    (hL g - 1 <= l)%nat ->
+    (forall k, s_vort (E s) k a l = 0) /\ (forall k, s_div (E s) k a l = 0) /\ (forall k, s_temp (E s) k a l = 0) /\
+    (s_lnps (E s) a l = 0) /\ List.Forall (fun t : nat -> nat -> nat -> F => forall k, t k a l = 0) (s_tr (E s)).
+  Proof. exact (pe_explicit_top_zero g c grav orog s a l). Qed.
+
+  (** the whole pattern for ANY input state (the input may violate the pattern), under the named hypotheses
+      pe_H_p_support (f * p zero outside the mask), pe_H_deriv_mask (div / curl keep the mask), orography in the mask *)
+  Theorem C11_pe_explicit_into_Supp (s : @State F) :
+    pe_H_p_support g -> pe_H_deriv_mask g -> pe_masked g orog -> StSupp g (E s).
+  Proof. exact (pe_explicit_into_Supp g c grav orog s). Qed.
+
+  (** Stokes / Gauss: (0,0) coefficients of the vorticity and divergence tendencies, explicit and implicit, every level,
+      ANY state, ALL tables *)
+  Theorem C11_pe_mean_tendencies_vanish (s : @State F) k :
+    hr g <> 0 -> (2 <= hL g)%nat -> (0 < hR g)%nat ->
+    s_vort (E s) k 0%nat 0%nat = 0 /\ s_div (E s) k 0%nat 0%nat = 0 /\
+    s_vort (G s) k 0%nat 0%nat = 0 /\ s_div (G s) k 0%nat 0%nat = 0.
+  Proof.
+    intros Hr HL HR0. destruct (pe_explicit_means_vanish g c grav orog s k Hr HL HR0) as [A B].
+    destruct (pe_implicit_means_vanish g c s k Hr) as [A' B']. repeat split; assumption.
+  Qed.
+
+  (** implicit terms and implicit inverse (ANY inverse tables) map the pattern to itself *)
+  Theorem C11_pe_implicit_preserve_Supp (eta : F) (invt : nat -> @Mat F) (s : @State F) :
+    StSupp g s -> StSupp g (G s) /\ StSupp g (implicit_inverse_full g c eta invt s).
+  Proof. intros Hs. split; [now apply pe_implicit_preserves_Supp|now apply pe_inverse_preserves_Supp]. Qed.
+
+  Variable invt : F -> nat -> @Mat F.
+  Let Gi := fun eta => implicit_inverse_full g c eta (invt eta).
+
+  (** trajectories: every step term (all integrators are such terms: C11_terms_are_the_integrators), every filter stack
+      that keeps the pattern, every number of steps; Runge-Kutta type and leapfrog *)
+  Theorem C11_primeq_trajectory_in_subspace (t : stepterm F) (filters : list (@State F -> @State F -> @State F)) :
+    pe_H_p_support g -> pe_H_deriv_mask g -> pe_masked g orog ->
+    (forall f, In f filters -> forall u un, StSupp g u -> StSupp g un -> StSupp g (f u un)) ->
+    forall k u, StSupp g u ->
+      StSupp g (iter k (with_filters (step_of (vo := StateSp) E G Gi t) filters) u).
+  Proof. exact (primeq_trajectory_in_subspace g c grav orog invt t filters). Qed.
+
+  Theorem C11_primeq_leapfrog_trajectory_in_subspace (t : stepterm F)
+          (filters : list (@State F * @State F -> @State F * @State F -> @State F * @State F)) :
+    pe_H_p_support g -> pe_H_deriv_mask g -> pe_masked g orog ->
+    (forall f, In f filters -> forall u un, S2 (StSupp g) u -> S2 (StSupp g) un -> S2 (StSupp g) (f u un)) ->
+    forall k u, S2 (StSupp g) u ->
+      S2 (StSupp g) (iter k (with_filters (lf_step_of (vo := StateSp) E G Gi t) filters) u).
+  Proof. exact (primeq_leapfrog_trajectory_in_subspace g c grav orog invt t filters). Qed.
+
+  (** global means never change, from ANY initial state: vorticity unconditionally; divergence when the divergence rows of
+      the inverse table at total wavenumber 0 are unit rows (pe_H_inv0_div_rows: first block row [I 0 0]) *)
+  Theorem C11_primeq_means_conserved (t : stepterm F) (cs : F) (filters : list (@State F -> @State F -> @State F)) lev :
+    hr g <> 0 -> (2 <= hL g)%nat -> (0 < hR g)%nat ->
+    consistent t cs ->
+    (forall f, In f filters -> forall u un, P_vort lev (f u un) = P_vort lev un /\ P_div lev (f u un) = P_div lev un) ->
+    forall k u,
+      P_vort lev (iter k (with_filters (step_of (vo := StateSp) E G Gi t) filters) u) = P_vort lev u /\
+      (pe_H_inv0_div_rows c invt -> (lev < cK c)%nat ->
+       P_div lev (iter k (with_filters (step_of (vo := StateSp) E G Gi t) filters) u) = P_div lev u).
+  Proof. exact (primeq_means_conserved g c grav orog invt t cs filters lev). Qed.
+End C11_primitive_equations.
+
+(** the named hypotheses (except pe_H_deriv_mask, which is a statement about all pairs of arrays and is re-checked on the
+    implementation's operators like sw_H_deriv_mask) are satisfiable on a concrete 3 x 3 instance over Qc (M = 2, L = 3; tables that are non-zero
+    inside the mask), with the exact inverse at total wavenumber 0 *)
+Definition ex_pe_grid : @HGrid Qc :=
+  mkHG 2 3 2 2 1 (fun _ _ => 1) (fun a _ l => if mask false 2 3 a l then 1 else 0) (fun _ => 1)
+       (fun _ _ => 0) (fun _ _ => 1) (fun _ => 1) (fun _ => 0) 1.
+Definition ex_pe_cfg : @PEcfg Qc := mkPE 2 1 1 (fun k => fofZ (Z.of_nat k)) (fun k => fofZ (Z.of_nat k)) (fun _ => 1).
+Definition ex_pe_invt (eta : Qc) (_ : nat) : @Mat Qc :=
+  fun i j => if Nat.ltb i 2 then eye i j
+             else if Nat.ltb j 2 then (if Nat.ltb i 4 then - (eta * temp_weights ex_pe_cfg (i - 2)%nat j)
+                                       else - (eta * thickness (cb ex_pe_cfg) j))
+                  else eye i j.
+Example C11_pe_hyps_satisfiable :
+  pe_H_p_support ex_pe_grid /\
+  pe_masked ex_pe_grid (fun a l => if mask false 2 3 a l then 1 else 0) /\
+  pe_H_inv0_div_rows ex_pe_cfg ex_pe_invt /\
+  (exists a l, (a < 3)%nat /\ (l < 3)%nat /\ mask false 2 3 a l = false) /\
+  hf ex_pe_grid 0%nat 0%nat * hp ex_pe_grid 0%nat 0%nat 0%nat <> 0.
+Proof.
+  split; [|split; [|split; [|split]]].
+  - intros i a j l _ _ _ _ Hm. cbn [ex_pe_grid hf hp hM hL] in *. rewrite Hm. apply Qc_is_canon. vm_compute. reflexivity.
+  - intros a l _ _ Hm. cbn [ex_pe_grid hM hL] in Hm. rewrite Hm. reflexivity.
+  - intros eta i j Hi _. unfold ex_pe_invt. cbn [ex_pe_cfg cK] in Hi. destruct (Nat.ltb_spec i 2); [reflexivity|lia].
+  - exists 1%nat, 0%nat. repeat split; lia.
+  - intro H. vm_compute in H. discriminate H.
+Qed.
+
 Print Assumptions C11_term_preserves_subspace.
 Print Assumptions C11_trajectory_in_subspace.
 Print Assumptions C11_leapfrog_trajectory_in_subspace.
@@ -437,3 +539,11 @@ Print Assumptions C11_fix_time_round_half_even.
 Print Assumptions C11_sw_mean_tendencies_vanish.
 Print Assumptions C11_sw_explicit_top_zero.
 Print Assumptions C11_sw_explicit_into_Supp.
+Print Assumptions C11_pe_explicit_top_zero.
+Print Assumptions C11_pe_explicit_into_Supp.
+Print Assumptions C11_pe_mean_tendencies_vanish.
+Print Assumptions C11_pe_implicit_preserve_Supp.
+Print Assumptions C11_primeq_trajectory_in_subspace.
+Print Assumptions C11_primeq_leapfrog_trajectory_in_subspace.
+Print Assumptions C11_primeq_means_conserved.
+Print Assumptions C11_pe_hyps_satisfiable.
